@@ -744,6 +744,9 @@ func (n *networkService) Trace() []tracing.MapKeyValueEntry {
 
 	for _, v := range resList {
 		res := v.(daemon.PodResources)
+		if res.PodInfo == nil {
+			continue
+		}
 
 		var resources []string
 		for _, v := range res.Resources {
@@ -931,6 +934,10 @@ func runDevicePlugin(daemonMode string, config *daemon.Config, poolConfig *daemo
 func getPodResources(list []interface{}) []daemon.PodResources {
 	var res []daemon.PodResources
 	for _, resObj := range list {
+		if resObj.(daemon.PodResources).PodInfo == nil {
+			// a record without pod info can not be attributed to any pod
+			continue
+		}
 		res = append(res, resObj.(daemon.PodResources))
 	}
 	return res
